@@ -92,6 +92,11 @@ pub trait Prop: Sync {
     fn timeout(&self) -> u64 {
         20
     }
+    /// checks that run once per invocation outside the per-case pipeline (e.g. runs isolated in child processes);
+    /// returns the number of evaluations and the violations found
+    fn extra_checks(&self, _r: &mut R, _tier: Tier) -> (usize, Vec<(Case, Viol)>) {
+        (0, vec![])
+    }
     /// may a failing case be shrunk by deleting bytes / lowering the width?  (false when `aux` describes the HTML)
     fn shrinkable(&self) -> bool {
         true
@@ -326,6 +331,23 @@ fn cmd_run(args: &[String]) {
         }
     }
 
+    // 3b. isolated extra checks
+    let (extra_n, extra) = prop.extra_checks(&mut r, tier);
+    let mut extra_findings: Vec<Finding> = Vec::new();
+    for (c, v) in extra {
+        match v.known {
+            Some(k) => {
+                *known_hits.entry(k).or_default() += 1;
+            }
+            None => {
+                oracle_viol += 1;
+                if extra_findings.len() < 5 {
+                    extra_findings.push(Finding { kind: "oracle", case: c, what: v.what, known: None, imp: "(isolated run)".into(), model: "(not applicable)".into() });
+                }
+            }
+        }
+    }
+
     // 4. shrink what was found (oracle findings by the oracle, disagreements by re-running both sides)
     for f in findings.iter_mut() {
         if !prop.shrinkable() || std::env::var("VERIF_NOSHRINK").is_ok() {
@@ -359,6 +381,7 @@ fn cmd_run(args: &[String]) {
         f.what = format!("{} [shrunk {} -> {} bytes]", f.what, before, f.case.html.len());
     }
 
+    findings.extend(extra_findings);
     // 5. replay files
     let _ = std::fs::create_dir_all(&replay_dir);
     let mut replay_paths: Vec<String> = Vec::new();
@@ -377,7 +400,7 @@ fn cmd_run(args: &[String]) {
         json_str(prop_id),
         json_str(if tier == Tier::Quick { "quick" } else { "thorough" }),
         seed,
-        n,
+        n + extra_n,
         n_corpus,
         distinct.len(),
         json_str(prop.rule()),
@@ -408,6 +431,29 @@ fn cmd_single(args: &[String]) {
         println!("{s}");
     }
     // do not wait for an abandoned (hung) worker thread
+    std::process::exit(0);
+}
+
+/// like `single`, but the library runs on the main thread with its default stack and without catch_unwind:
+/// stack exhaustion and aborts show up as death by signal for the parent to see
+fn cmd_single_main(args: &[String]) {
+    let width: usize = args[0].parse().unwrap();
+    let cfg = Cfg::decode(&args[1..9].join(" ")).expect("bad cfg");
+    let mut html = Vec::new();
+    std::io::stdin().read_to_end(&mut html).unwrap();
+    let clone_tree = args.get(9).map(|s| s == "clone").unwrap_or(false);
+    if clone_tree {
+        // RenderTree::clone() + render of the clone
+        let c = html2text::config::plain();
+        let dom = c.parse_html(&html[..]).unwrap();
+        let tree = c.dom_to_render_tree(&dom).unwrap();
+        let t2 = tree.clone();
+        let r = c.render_to_string(t2, width);
+        println!("{}", if r.is_ok() { "ok" } else { "narrow" });
+        std::process::exit(0);
+    }
+    let o = obs::run_impl_raw(&html, &cfg, width);
+    println!("{}", o.class());
     std::process::exit(0);
 }
 
@@ -468,8 +514,19 @@ fn main() {
     match args.first().map(|s| s.as_str()) {
         Some("run") => cmd_run(&args[1..]),
         Some("single") => cmd_single(&args[1..]),
+        Some("single-main") => cmd_single_main(&args[1..]),
         Some("replay") => cmd_replay(&args[1..]),
         Some("witness") => cmd_witness(&args[1..]),
+        Some("proto") => {
+            // proto <prop> <tier> <seed>: one line per generated case: "<index>\t<stream>\t<width>\t<cfg>\t<request line>"
+            let prop = props::get(&args[1]).expect("unknown property");
+            let tier = if args[2] == "thorough" { Tier::Thorough } else { Tier::Quick };
+            let seed: u64 = args[3].parse().unwrap_or(1);
+            let mut r = R(seed ^ util::fnv(args[1].as_bytes()));
+            for (i, c) in prop.cases(&mut r, tier).iter().enumerate() {
+                println!("{}\t{}\t{}\t{}\t{}", i, c.stream, c.width, c.cfg.describe().replace('\n', " ").replace('\t', " "), obs::proto_line(&c.html, &c.cfg, c.width));
+            }
+        }
         _ => {
             eprintln!("usage: h2t-harness run|single|replay ...");
             std::process::exit(2)
